@@ -18,7 +18,8 @@ RULE = ("a case is a history of 60-150 calls over 5 generated functions (signatu
         "(positional / keyword / defaults spelled out or omitted), near-colliding twins (1 / 1.0 / True / '1', 'a' / b'a', "
         "list / tuple, set / frozenset), keywords that repeat the name of a positional-only parameter, equal str / bytes leaves built as one shared object or as distinct objects, dict and set arguments rebuilt in other insertion orders, direct calls and "
         "call_and_shelve(...).get(), compress in {False, True, 3}, in one process or 2-3 fresh processes taking turns on one "
-        "directory; distinct_nontrivial counts distinct (signature, binding) pairs called through the cache")
+        "directory; distinct_nontrivial counts distinct (signature, binding) pairs called through the cache"
+        " Histories also hold Memory.clear() / func.clear() steps, cache locations spelled relative / with 'sub/..' / through a symbolic link (a spelling per process), pair bindings (one call holding a value and an ==-twin of another type at two slots), instances of dict / set subclasses and Decimal values; every session ends with overlapping calls of one wrapper (recursion through the wrapper, a second thread's miss inside the first one's computation, three asyncio tasks).")
 ASSUMPTIONS = [
     "generated functions are pure functions of their arguments; the fingerprint is typed, so 1, 1.0 and True differ",
     "a call the plain function accepts but the wrapper rejects is C06's clause: counted, not judged here",
